@@ -11,7 +11,7 @@ ASSUMPTIONS = ["oracle: numpy indexing of the dense array; values only", "out-of
                "results that are run-length arrays must also satisfy the constructor invariant (C14)"]
 REQUIRED_FEATURES = ["negative_int", "bound_beyond_end", "negative_step", "empty_result", "rl_mask", "dense_mask", "window_pair", "list_with_repeats",
                      "step_larger_than_run"]
-BOUNDS = {"quick": "all arrays over {0,1,2} of length 1..4 x {every int in [-L,L-1]; every list of length<=2; every dense and run-length mask; every slice with "
+BOUNDS = {"quick": "all arrays over {0,1,2} of length 1..4 and those of length 5 starting with 0 x {every int in [-L,L-1]; every list of length<=2; every dense and run-length mask; every slice with "
                    "start,stop in {None} u [-(L+2),L+2] and step in {None,+-1,+-2,+-3,+-4}; every vector of 1-2 windows}",
           "thorough": "length 1..6 over {0,1,2} (first element fixed to 0 for L>=5) and {0,1} up to L=8"}
 STEPS = (None, 1, 2, 3, 4, -1, -2, -3, -4)
@@ -19,7 +19,7 @@ STEPS = (None, 1, 2, 3, 4, -1, -2, -3, -4)
 
 def shards(tier):
     out = []
-    lmax = 4 if tier == "quick" else 6
+    lmax = 5 if tier == "quick" else 6
     for L in range(1, lmax + 1):
         for t in itertools.product(range(3), repeat=L):
             if L >= 5 and t[0] != 0:
